@@ -268,6 +268,37 @@ def other_srs_for(gi, rect):
 
 
 def gen_coverage(rng, gi, zmax, allow_multi=True):
+    """-> coverage spec (JSON-able), kept inside the area where the grid SRS is defined"""
+    cov = gen_coverage_(rng, gi, zmax, allow_multi)
+    lim = WORLD[gi.srs] if gi.srs != 'EPSG:25832' else (-500000.0, 3000000.0, 1500000.0, 8000000.0)
+    if gi.srs == 'EPSG:4326':
+        lim = (-180.0, -89.0, 180.0, 89.0)
+
+    def clamp(c):
+        if c['kind'] == 'multi':
+            for q in c['parts']:
+                clamp(q)
+        elif c.get('srs') == gi.srs:
+            if c['kind'] == 'bbox':
+                b = c['bbox']
+                nb = [max(b[0], lim[0]), max(b[1], lim[1]), min(b[2], lim[2]), min(b[3], lim[3])]
+                if nb[2] - nb[0] > 0 and nb[3] - nb[1] > 0:
+                    c['bbox'] = nb
+                else:
+                    c['bbox'] = [lim[0], lim[1], lim[0] + (b[2] - b[0]), lim[1] + (b[3] - b[1])]
+            elif c['kind'] == 'geom':
+                g = geom_of(c['polys'])
+                if not g.is_valid:
+                    g = g.buffer(0)
+                g2 = g.intersection(sg.box(*lim))
+                ps = polys_of(g2)
+                if ps and not g2.equals(g):
+                    c['polys'] = ps
+    clamp(cov)
+    return cov
+
+
+def gen_coverage_(rng, gi, zmax, allow_multi=True):
     """-> coverage spec (JSON-able). Sized so that the deepest chosen level has at most a few thousand tiles."""
     gb = gi.bbox
     gw, gh = gb[2] - gb[0], gb[3] - gb[1]
@@ -281,7 +312,7 @@ def gen_coverage(rng, gi, zmax, allow_multi=True):
     if kind == 'none':
         return {'kind': 'none', 'cls': 'none'}
     if kind == 'multicov':
-        parts = [gen_coverage(rng, gi, zmax, allow_multi=False) for _ in range(rng.randint(2, 3))]
+        parts = [gen_coverage_(rng, gi, zmax, allow_multi=False) for _ in range(rng.randint(2, 3))]
         parts = [p for p in parts if p['kind'] != 'none']
         if len(parts) < 2:
             return parts[0] if parts else {'kind': 'none', 'cls': 'none'}
@@ -763,6 +794,7 @@ class LevelOracle(object):
         self.gi, self.z, self.lo, self.hi = gi, z, lo, hi
         self.res = gi.res[z]
         self.cls = {}
+        self.near = []
         self.too_big = False
         hb = hi.bounds
         i0, i1, j0, j1 = gi.block_range(z, hb, pad=1)
@@ -1211,7 +1243,7 @@ def setup_shard(run):
 
 
 def gen_cases(run):
-    n = run.pick(480, 6000)
+    n = run.pick(400, 2600)
     for i in range(n):
         yield {'i': i}
 
